@@ -257,8 +257,14 @@ impl Report {
             Some("thorough") => mode = Mode::Thorough,
             Some("replay") => {
                 let path = args.get(2).expect("replay <file>");
-                let txt = std::fs::read_to_string(path).expect("cannot read replay file");
-                let v: Value = serde_json::from_str(&txt).expect("replay file is not JSON");
+                let txt = std::fs::read_to_string(path).unwrap_or_else(|e| {
+                    eprintln!("MACHINERY-ERROR: cannot read replay file {path}: {e}");
+                    std::process::exit(2)
+                });
+                let v: Value = serde_json::from_str(&txt).unwrap_or_else(|e| {
+                    eprintln!("MACHINERY-ERROR: replay file {path} is not JSON: {e}");
+                    std::process::exit(2)
+                });
                 mode = if v["mode"] == "thorough" { Mode::Thorough } else { Mode::Quick };
                 replay = Some(Replay {
                     system: v["system"].as_str().unwrap_or("").to_string(),
